@@ -658,7 +658,7 @@ func tagsOf(es ...sx.Sexp) []string {
 func interesting(es ...sx.Sexp) bool {
 	for _, e := range es {
 		switch e.Tag() {
-		case "a", "h", "mh", "e", "t", "s", "x", "r", "sens", "uri", "ver", "vmin", "vr", "tn", "df", "par":
+		case "a", "h", "mh", "e", "t", "s", "x", "r", "sens", "uri", "ver", "vmin", "vr", "tn", "df", "par", "obj":
 			return true
 		}
 	}
@@ -691,6 +691,8 @@ func exec(c px.Context, op string, args []sx.Sexp) (res core.Result) {
 				res = core.Result{Out: "bad-op", Pred: "n/a", NonTrivial: true, Tags: []string{"bad-operand"}}
 			case rangeMismatch: // the op line states ranges the implementation does not parse its string to: a generator bug
 				res = core.Fail("bad-op", "harness-range-mismatch", e.why)
+			case objectMismatch: // the op line states a type descriptor / attribute defaults that are not the implementation's
+				res = core.Fail("bad-op", "harness-object-mismatch", e.why)
 			default:
 				panic(e)
 			}
@@ -982,6 +984,11 @@ func exec1(c px.Context, op string, args []sx.Sexp) core.Result {
 		return res
 	case "teq", "teq3":
 		return execTypes(c, op, args)
+	case "objcheck": // implementation only: objectType.Equals on catalogue types = equality of their descriptors
+		if why, ok := objCheck(c); !ok {
+			return core.Fail("mismatch", "harness-object-mismatch", why)
+		}
+		return core.Result{Out: "ok", Pred: "ok", NonTrivial: true, Tags: []string{"objcheck"}}
 	case "vrcheck": // implementation only: the stated ranges are what the string parses to (rangeOf panics otherwise)
 		rangeOf(args)
 		return core.Result{Out: "ok", Pred: "ok", NonTrivial: true, Tags: []string{"vrcheck"}}
@@ -2002,6 +2009,8 @@ func gen(g *core.G) {
 	// every ordered pair over their universe, bare, as array elements and as hash keys; crossed with a core of the old kinds;
 	// a string holding the key bytes of each (the raw-string class)
 	ku := kindUniverse()
+	g.Emit("@objcheck")
+	ku = append(ku, objUniverse()...)
 	for _, row := range rangeTable() { // the range table itself: the stated ranges are what each spelling parses to
 		for _, o := range row.origs {
 			line := "@vrcheck " + sx.Str(o).Atom
